@@ -1223,6 +1223,20 @@ class SimulationResults(JsonSerializable):
         # Otherwise, we merge each Result from `self` with the Result from
         # `other`
         else:
+            # First check that everything can be merged, such that a merge
+            # that fails does not leave `self` with only some results merged
+            for item in self.get_result_names():
+                if item != 'num_skipped_reps':
+                    # pylint: disable=W0212
+                    self._results[item][-1]._assert_can_merge(other[item][-1])
+            if 'num_skipped_reps' in other.get_result_names():
+                if 'num_skipped_reps' in self.get_result_names():
+                    skipped = self._results['num_skipped_reps'][-1]
+                else:
+                    skipped = Result('num_skipped_reps', Result.SUMTYPE)
+                # pylint: disable=W0212
+                skipped._assert_can_merge(other['num_skipped_reps'][-1])
+
             for item in self.get_result_names():
                 # The 'num_skipped_reps' result is different from the other
                 # results in the sense that it is created by the
